@@ -65,6 +65,9 @@ pub mod serial {
 //@include frag/serial_frame_writer.tpl
     }
 }
+pub mod channel {
+//@include frag/channel.tpl
+}
 pub mod client {
     pub mod requests {
         pub mod write_multiple {
